@@ -215,6 +215,14 @@ func checkC02(tier string) int {
 	if tier == "thorough" {
 		hb = 15 * time.Minute
 	}
+	// the holder's TOUCH after a redelivery (REQ 0, handed out again, TOUCH): its timeout is
+	// measured from the delivery it holds, judged from exact arrival times (shared with C04)
+	var tjobs []caseJob
+	for _, fs := range [][]string{{"req0touch"}, {"req0touch", "timeout"}, {"req0touch", "req0touch"}, {"touch1", "req0touch"}} {
+		tjobs = append(tjobs, caseJob{"timing", mustJSON(nsqd.TimingSpec{Fates: fs})})
+		tjobs = append(tjobs, caseJob{"timing", mustJSON(nsqd.TimingSpec{Fates: fs, MsgTO: 1500})})
+	}
+	runCases(rep, tjobs, 2)
 	runHistPlans(rep, "C02", tier, "exploration", histPlans("C02", tier), hb)
 	rep.Rule += "; E3: BFS over event histories from pre-subscribed states (two consumers on one channel; one consumer on each of two channels) with the holder/attempts/FIN-final monitor of the reference ledger"
 	return rep.Finish()
